@@ -22,7 +22,7 @@ func racePass() {
 	}
 	logs := [][]partlib.Op{
 		{{Kind: "ins", Items: []partlib.ItemSpec{{ID: 0, Vec: 0, Meta: 1}}}, {Kind: "ins", Items: []partlib.ItemSpec{{ID: 1, Vec: 1, Meta: 2}}}, {Kind: "upd", Items: []partlib.ItemSpec{{ID: 0, Vec: 2, Meta: 3}}}},
-		{{Kind: "bins", Items: []partlib.ItemSpec{{ID: 0, Vec: 2, Meta: 0}, {ID: 2, Vec: 1, Meta: 4}}}, {Kind: "ins", Items: []partlib.ItemSpec{{ID: 1, Vec: 0, Meta: 3}}}, {Kind: "rem", Items: []partlib.ItemSpec{{ID: 0}}}},
+		{{Kind: "bins", Items: []partlib.ItemSpec{{ID: 0, Vec: 2, Meta: 0}, {ID: 2, Vec: 1, Meta: 4}, {ID: 2, Vec: 0, Meta: 1}, {ID: 0, Vec: 0, Meta: 2}}}, {Kind: "ins", Items: []partlib.ItemSpec{{ID: 1, Vec: 0, Meta: 3}}}, {Kind: "rem", Items: []partlib.ItemSpec{{ID: 0}}}},
 	}
 	var mu sync.Mutex
 	reported := map[string]bool{}
